@@ -61,6 +61,16 @@ CLAIMS = {
   'text': 'Partial, structural (feature configuration serde-json, which the pinned test run never compiles; thorough adds string-only): no float conversion/parse/cast is reachable from visit_str, visit_map or the two JSON-number adapters, so digits are read digit for digit; every may-panic site on those paths is discharged or reviewed; both JSON-number adapters compare the deserialised scale with the generated SERDE_SCALE_LIMIT; Serialize is collect_str(self) and the adapters serialise Number::from_str(Display text). Round-trip equality and the "00" zero are NOT decided.',
   'note': TRUST + ' serde callbacks are modelled by a trampoline table (deserialize_any -> every Visitor method, next_value::<BigDecimal> -> Deserialize).',
  },
+ 'C04': {
+  'technique': 'static analysis: provenance of the Display thresholds; literal-confinement (alphabet) rule over every output sink in the rendering call graph, including parsed format templates',
+  'text': 'Partial, structural: (1) default Display switches notation on the two generated thresholds (passed in order, both compared, no other literal threshold on a scale-derived value); (2) every string/char/byte literal and every literal piece of a format template that reaches an output sink on the call graph of Display, {:e}, {:E}, scientific, engineering and plain notation lies in the parser\'s alphabet {0-9 . e E + - _} - a necessary condition of re-parseability. Round-trip equality, digit/scale preservation and the decimal-point arithmetic are NOT decided.',
+  'note': TRUST + ' fmt::Arguments template encoding as documented in core::fmt for this toolchain.',
+ },
+ 'C16': {
+  'technique': 'static analysis: provenance of rounding mode and sign at the formatting rounding sites; interprocedural taint from Formatter flag getters to the numeral bytes (non-interference)',
+  'text': 'Partial, structural: all rounding data built on the formatting paths takes the generated DEFAULT_ROUNDING_MODE and the sign of the formatted number; pad_integral\'s is_nonnegative derives from that sign; FMT_MAX_INTEGER_PADDING feeds a comparison; and no value obtained from Formatter::{width, fill, align, sign_plus, sign_minus, sign_aware_zero_pad, flags, alternate} flows - directly or through a callee parameter - into the bytes written or into pad_integral, which is a sufficient condition for "flags never alter the digits". That the ASCII-digit rounding agrees numerically with the library rounding is NOT decided.',
+  'note': TRUST + ' Formatter::pad_integral only pads around the buffer it is given.',
+ },
 }
 _PENDING = 'check not built yet in this commit (implementation in progress, see DESIGN.md section 8)'
 NOT_APPLICABLE = {('C%02d' % i): _PENDING for i in range(1, 21) if ('C%02d' % i) not in CLAIMS}
